@@ -37,6 +37,11 @@ def spec():
         "Pup2": obj(["species", "name"], {"species": st, "name": st}),
         "Animal2": {"oneOf": [{"$ref": "#/components/schemas/Kit2"}, {"$ref": "#/components/schemas/Pup2"}],
                     "discriminator": {"propertyName": "species", "mapping": {"cat": "#/components/schemas/Kit2", "kitten": "#/components/schemas/Kit2", "dog": "#/components/schemas/Pup2"}}},
+        # variants that do not declare the discriminator property themselves (only the union names it)
+        "Round": obj(["r"], {"r": it, "label": st}),
+        "Boxy": obj(["side"], {"side": it, "label": st}),
+        "Shape2": {"oneOf": [{"$ref": "#/components/schemas/Round"}, {"$ref": "#/components/schemas/Boxy"}],
+                   "discriminator": {"propertyName": "type", "mapping": {"round": "#/components/schemas/Round", "boxy": "#/components/schemas/Boxy"}}},
         "OptA": obj([], {"x": it}),
         "OptB": obj([], {"y": it}),
         "AllOpt": {"anyOf": [{"$ref": "#/components/schemas/OptA"}, {"$ref": "#/components/schemas/OptB"}]},
